@@ -18,7 +18,10 @@ from harness.runner import Result, library_frame
 ID = "C08"
 LEVEL = "exploration"
 RULE = ("healthy: (device-type list) / (group set) / (current set, requested set, destination kind) tuples, each distinct "
-        "by construction; every short address 0..63 as a Short object and as a plain int x a few lists / sets / (current, "
+        "by construction; destinations also as look-alikes of the plain ones, judged exactly like them (an IntEnum member, an "
+        "int subclass instance, a bool for addresses 0 / 1; instances of label-only application subclasses of Short / Group / "
+        "Broadcast / BroadcastUnaddressed); every short address 0..63 as a Short object, as a plain int and as each "
+        "single-unit look-alike x a few lists / sets / (current, "
         "requested) pairs for each sequence, and x every failing pair of answers to the group queries for SetGroups; adversarial: answer streams, distinct by construction; non-trivial = multi-type list, or a "
         "stream that reaches the QUERY NEXT DEVICE TYPE loop, or a SetGroups pair with current != requested; well-behaved "
         "device-type lists of every length 0..254 (first n / last n / evenly spread types), on the unit model and as answer "
@@ -77,15 +80,16 @@ def _harness_error(e):
 
 
 def prep_types(case):
-    """{"kind": "types", "types": [...], "short": a, "as_int": bool}"""
+    """{"kind": "types", "types": [...], "short": a, "as_int": bool | "dest": one of SINGLE_KINDS}"""
     sequences, address, exc = _load()
     types = case["types"]
     a = case["short"]
     unit = GearModel(short=a, device_types=types)
     other = GearModel(short=(a + 1) % 64, device_types=[3])
     bus = Bus([unit, other], max_commands=300)
-    where = "QueryDeviceTypes on a unit with types %r" % (types,)
-    return Job("types", case, bus, lambda: sequences.QueryDeviceTypes(a if case.get("as_int") else address.GearShort(a)), where)
+    d = single_kind(case)
+    where = "QueryDeviceTypes(%s %d) on a unit with types %r" % (d, a, types)
+    return Job("types", case, bus, lambda: sequences.QueryDeviceTypes(make_dest(address, d, a)), where)
 
 
 def judge_types(job, oc):
@@ -113,9 +117,45 @@ def case_types(case):
 
 
 DEST_KINDS = ["short", "int", "group", "broadcast", "unaddressed"]
+# The same destinations as an application may well hold them: an int-like object (a member of an IntEnum that names the
+# lamps, a bool for the addresses 0 / 1, an instance of an int subclass) or an instance of its own subclass of the
+# library's address classes that adds nothing but a label.  BASE says which plain destination each one is; it is judged
+# exactly like that one.
+BASE = {"short": "short", "int": "int", "group": "group", "broadcast": "broadcast", "unaddressed": "unaddressed",
+        "intenum": "int", "bool": "int", "intsub": "int", "shortsub": "short", "groupsub": "group",
+        "broadcastsub": "broadcast", "unaddressedsub": "unaddressed"}
+SINGLE_KINDS = ["short", "int", "intenum", "intsub", "shortsub", "bool"]       # "bool" only for the addresses 0 and 1
+LIKE_KINDS = ["intenum", "intsub", "shortsub", "bool", "groupsub", "broadcastsub", "unaddressedsub"]
+ALL_KINDS = DEST_KINDS + LIKE_KINDS
+_CLASSES = {}
 
 
-def make_dest(address, kind, a, g):
+def _classes(address):
+    if not _CLASSES:
+        import enum
+
+        class Channel(int):
+            """An application's own int: a short address with a label."""
+            label = "channel"
+
+        class NamedShort(address.GearShort):
+            label = "a lamp"
+
+        class NamedGroup(address.GearGroup):
+            label = "a room"
+
+        class NamedBroadcast(address.GearBroadcast):
+            label = "the whole line"
+
+        class NamedUnaddressed(address.GearBroadcastUnaddressed):
+            label = "new gear"
+
+        _CLASSES.update(enum=enum, intsub=Channel, shortsub=NamedShort, groupsub=NamedGroup, broadcastsub=NamedBroadcast,
+                        unaddressedsub=NamedUnaddressed)
+    return _CLASSES
+
+
+def make_dest(address, kind, a, g=0):
     if kind == "short":
         return address.GearShort(a)
     if kind == "int":
@@ -124,7 +164,26 @@ def make_dest(address, kind, a, g):
         return address.GearGroup(g)
     if kind == "broadcast":
         return address.GearBroadcast()
-    return address.GearBroadcastUnaddressed()
+    if kind == "unaddressed":
+        return address.GearBroadcastUnaddressed()
+    cl = _classes(address)
+    if kind == "intenum":
+        # the application's names for its lamps
+        return cl["enum"].IntEnum("Lamp", {"this_lamp": a, "another_lamp": (a + 1) % 64})(a)
+    if kind == "bool":
+        if a not in (0, 1):
+            raise ValueError("a bool can only stand for the short addresses 0 and 1, not %r" % (a,))
+        return bool(a)
+    if kind == "groupsub":
+        return cl[kind](g)
+    if kind in ("broadcastsub", "unaddressedsub"):
+        return cl[kind]()
+    return cl[kind](a)          # intsub, shortsub
+
+
+def single_kind(case):
+    """How a case of a single-unit sequence spells its destination: "dest" if given, else the older "as_int" flag."""
+    return case.get("dest") or ("int" if case.get("as_int") else "short")
 
 
 def bits_to_set(m):
@@ -132,15 +191,15 @@ def bits_to_set(m):
 
 
 def prep_groups(case):
-    """{"kind": "qgroups", "mask": m[, "short": a, "as_int": bool]}"""
+    """{"kind": "qgroups", "mask": m[, "short": a, "as_int": bool | "dest": one of SINGLE_KINDS]}"""
     sequences, address, exc = _load()
     cur = bits_to_set(case["mask"])
     a = case.get("short", 5 + case["mask"] % 50)
     unit = GearModel(short=a, groups=cur)
     bus = Bus([unit, GearModel(short=(a + 1) % 64, groups={1, 9})], max_commands=50)
-    return Job("qgroups", case, bus, lambda: sequences.QueryGroups(a if case.get("as_int") else address.GearShort(a)),
-               "QueryGroups(%s) on a unit in groups %r" % ("int %d" % a if case.get("as_int") else "short %d" % a, sorted(cur)),
-               cur=cur)
+    d = single_kind(case)
+    return Job("qgroups", case, bus, lambda: sequences.QueryGroups(make_dest(address, d, a)),
+               "QueryGroups(%s %d) on a unit in groups %r" % (d, a, sorted(cur)), cur=cur)
 
 
 def judge_groups(job, oc):
@@ -167,7 +226,8 @@ def prep_setgroups(case):
     None when the precondition of a group destination does not hold."""
     sequences, address, exc = _load()
     cur, req = bits_to_set(case["cur"]), bits_to_set(case["req"])
-    kind = case["dest"]
+    spelt = case["dest"]
+    kind = BASE[spelt]
     a = case.get("short", 17)
     g = case.get("g", 0)
     if kind == "group":
@@ -189,17 +249,18 @@ def prep_setgroups(case):
         units = units + extra
     bus = Bus(units, max_commands=100)
     where = "SetGroups(%s, %r) on a unit in groups %r" % (
-        "group %d" % g if kind == "group" else "%s %d" % (kind, a) if kind in ("short", "int") else kind, sorted(req), sorted(cur))
+        "%s %d" % (spelt, g) if kind == "group" else "%s %d" % (spelt, a) if kind in ("short", "int") else spelt, sorted(req), sorted(cur))
     # "groups is a set of integers": a set or a frozenset; the caller keeps using its own object afterwards
     given = frozenset(req) if (case["cur"] + case["req"]) % 2 else set(req)
-    return Job("setgroups", case, bus, lambda: sequences.SetGroups(make_dest(address, kind, a, g), given), where,
+    return Job("setgroups", case, bus, lambda: sequences.SetGroups(make_dest(address, spelt, a, g), given), where,
                cur=cur, req=req, given=given, unit=unit, bystander=bystander, extra=extra, g=g)
 
 
 def judge_setgroups(job, oc):
     case, bus, where = job.case, job.bus, job.where
     cur, req, given, unit, bystander, extra, g = job.cur, job.req, job.given, job.unit, job.bystander, job.extra, job.g
-    kind = case["dest"]
+    spelt = case["dest"]
+    kind = BASE[spelt]          # a look-alike destination is judged exactly like the plain one
     if oc[0] == "raised":
         e = oc[1]
         if _harness_error(e):
@@ -210,11 +271,11 @@ def judge_setgroups(job, oc):
     out = []
     for j, u in enumerate(extra):
         if u.groups != req:
-            out.append(("C08:setgroups-membership:%s:other-unit" % kind, "%s left another unit reached by the same destination in "
+            out.append(("C08:setgroups-membership:%s:other-unit" % spelt, "%s left another unit reached by the same destination in "
                         "groups %r" % (where, sorted(u.groups))))
             break
     if unit.groups != req:
-        sig = "C08:setgroups-membership:" + kind
+        sig = "C08:setgroups-membership:" + spelt
         if kind == "group" and g not in req:
             sig = "C08:setgroups-group-destination-removed-midway"
         out.append((sig, "%s left the unit in groups %r" % (where, sorted(unit.groups))))
@@ -227,8 +288,8 @@ def judge_setgroups(job, oc):
         rems = sorted(gq for (op, gq) in changes if op == 0x70)
         others = [c for c in changes if c[0] not in (0x60, 0x70)]
         if adds != sorted(req - cur) or rems != sorted(cur - req) or others or len(bus.trace) != 2 + len(adds) + len(rems):
-            out.append(("C08:setgroups-unnecessary-commands", "%s issued adds %r removes %r others %r"
-                        % (where, adds, rems, others)))
+            out.append(("C08:setgroups-unnecessary-commands" + ("" if spelt == kind else ":look-alike-destination"),
+                        "%s issued adds %r removes %r others %r" % (where, adds, rems, others)))
     return out
 
 
@@ -390,14 +451,15 @@ def case_qgroups_stream(case):
 
 
 def prep_setgroups_fault(case):
-    """{"kind": "sgfault", "stream": [a0, a1][, "short": a, "as_int": bool]} - SetGroups(short address, given as Short
-    or as int) when the group queries fail."""
+    """{"kind": "sgfault", "stream": [a0, a1][, "short": a, "as_int": bool | "dest": one of SINGLE_KINDS]} -
+    SetGroups(short address, given as Short, as int or as a look-alike of either) when the group queries fail."""
     sequences, address, exc = _load()
     stream = case["stream"] + [0]
     bus = ScriptBus(stream, max_commands=40)
     a = case.get("short", 3)
-    where = "SetGroups(%s %d, {1,2}) when the group queries answer %r" % ("int" if case.get("as_int") else "short", a, case["stream"])
-    return Job("sgfault", case, bus, lambda: sequences.SetGroups(a if case.get("as_int") else address.GearShort(a), {1, 2}), where)
+    d = single_kind(case)
+    where = "SetGroups(%s %d, {1,2}) when the group queries answer %r" % (d, a, case["stream"])
+    return Job("sgfault", case, bus, lambda: sequences.SetGroups(make_dest(address, d, a), {1, 2}), where, dest=d)
 
 
 def judge_setgroups_fault(job, oc):
@@ -411,7 +473,9 @@ def judge_setgroups_fault(job, oc):
             raise e
         return [("C08:setgroups-raised:%s" % type(e).__name__, "%s raised %r" % (where, e))]
     # SetGroups on a short address must propagate the failure of its queries
-    return [("C08:setgroups-ignored-query-failure", "%s completed normally" % where)]
+    d = job.dest
+    return [("C08:setgroups-ignored-query-failure" + ("" if d in ("short", "int") else ":look-alike-destination"),
+             "%s completed normally after %d commands" % (where, job.bus.n))]
 
 
 def case_setgroups_fault(case):
@@ -427,6 +491,7 @@ def case_history(case):
     """{"kind": "history", "units": [{"groups": mask, "types": [...]}, ...], "steps": [...][, "shorts": [a, b, c]]}: one
     program working on one line for a while (the units sit at short addresses `shorts`, default 17, 18, 40).  The units keep their state from step to step; what the sequences return is kept in numbered
     slots and the caller does with it what callers do with a set / a list of their own: edits it, hands it back.
+      (as_int: True = the address as a plain int, False = as a Short object, or one of SINGLE_KINDS but "bool")
       ["qgroups", k, as_int]          QueryGroups(unit k)                        -> new slot
       ["types", k, as_int]            QueryDeviceTypes(unit k)                   -> new slot
       ["edit", j, how, arg]           the caller edits the object in slot j: add / discard / clear / update(mask) for a
@@ -446,8 +511,9 @@ def case_history(case):
     def sig(tail):
         return ("C08:history-after-caller-edited-a-result:" if edited else "C08:") + tail
 
-    def dest(k, as_int):
-        return shorts[k] if as_int else address.GearShort(shorts[k])
+    def dest(k, how):
+        # how: True = plain int, False = Short object, or one of SINGLE_KINDS
+        return make_dest(address, how if isinstance(how, str) else "int" if how else "short", shorts[k])
 
     for step in case["steps"]:
         op = step[0]
@@ -502,7 +568,7 @@ def case_history(case):
             if r != sorted(unit.device_types) or not isinstance(r, list):
                 return [(sig("types-wrong"), "%s returned %r" % (where, r))]
         else:
-            kind = "int" if step[3] else "short"
+            kind = step[3] if isinstance(step[3], str) else "int" if step[3] else "short"
             if set(given) != req:
                 return [(sig("setgroups-modified-callers-set"), "%s: the caller's set is now %r" % (where, sorted(given)))]
             if unit.groups != req:
@@ -516,7 +582,8 @@ def case_history(case):
             others = [c for c in changes if c[0] not in (0x60, 0x70)]
             cur = before[k]
             if adds != sorted(req - cur) or rems != sorted(cur - req) or others or len(bus.trace) != 2 + len(adds) + len(rems):
-                return [(sig("setgroups-unnecessary-commands"), "%s (requested %r) issued adds %r removes %r others %r"
+                return [(sig("setgroups-unnecessary-commands" + ("" if kind in ("short", "int") else ":look-alike-destination")),
+                         "%s (requested %r) issued adds %r removes %r others %r"
                          % (where, sorted(req), adds, rems, others))]
     return []
 
@@ -565,6 +632,11 @@ def fixed_histories(seed):
         for how, arg in (["append", 99], ["clear", None], ["pop", None]):
             out.append({"kind": "history", "units": units,
                         "steps": [["types", 0, False], ["edit", 0, how, arg], ["types", 0, True], ["types", 1, False], ["types", 2, False]]})
+        # the same read-modify-write with the address held as an IntEnum member / int subclass / Short subclass
+        like = ["intenum", "intsub", "shortsub"][mi % 3]
+        out.append({"kind": "history", "units": units,
+                    "steps": [["qgroups", 0, like], ["edit", 0, "update", other], ["setgroups", 0, ["slot", 0], like],
+                              ["qgroups", 0, like], ["types", 0, like], ["setgroups", 1, ["mask", other], like], ["qgroups", 1, False]]})
     return out
 
 
@@ -579,21 +651,22 @@ def history_st():
                  {"groups": masks[2], "types": draw(tl)}]
         steps = []
         nres = 0
+        how = st.one_of(st.booleans(), st.booleans(), st.sampled_from(["intenum", "intsub", "shortsub"]))
         for _ in range(draw(st.integers(2, 8))):
             op = draw(st.sampled_from(["qgroups", "qgroups", "qgroups", "types", "edit", "edit", "setgroups", "setgroups"]))
             if op in ("qgroups", "types"):
-                steps.append([op, draw(st.integers(0, 2)), draw(st.booleans())])
+                steps.append([op, draw(st.integers(0, 2)), draw(how)])
                 nres += 1
             elif op == "edit":
                 if not nres:
                     continue
-                how = draw(st.sampled_from(["add", "discard", "clear", "update", "append", "pop"]))
-                arg = draw(st.integers(0, 0xFFFF)) if how == "update" else draw(st.integers(0, 15)) if how in ("add", "discard") else 99
-                steps.append(["edit", draw(st.integers(0, nres - 1)), how, arg])
+                ed = draw(st.sampled_from(["add", "discard", "clear", "update", "append", "pop"]))
+                arg = draw(st.integers(0, 0xFFFF)) if ed == "update" else draw(st.integers(0, 15)) if ed in ("add", "discard") else 99
+                steps.append(["edit", draw(st.integers(0, nres - 1)), ed, arg])
             else:
                 src = ["slot", draw(st.integers(0, nres - 1))] if nres and draw(st.booleans()) else \
                     ["mask", draw(st.one_of(st.integers(0, 0xFFFF), st.sampled_from(masks)))]
-                steps.append(["setgroups", draw(st.integers(0, 2)), src, draw(st.booleans())])
+                steps.append(["setgroups", draw(st.integers(0, 2)), src, draw(how)])
         h = {"kind": "history", "units": units, "steps": steps}
         if draw(st.booleans()):
             h["shorts"] = draw(st.one_of(st.permutations(list(range(64))).map(lambda p: list(p[:3])),
@@ -760,6 +833,8 @@ def palette(seed, extra):
         return c
 
     def ty(types, as_int=False, short=17):
+        if isinstance(as_int, str):
+            return {"kind": "types", "types": types, "short": short, "dest": as_int}
         return {"kind": "types", "types": types, "short": short, "as_int": as_int}
 
     def qg(mask, short=17):
@@ -770,7 +845,7 @@ def palette(seed, extra):
             sg(0x1088, 0x0006, "short"), sg(0x0006, 0x1088, "int"), sg(0x00FF, 0xFF00, "short"), sg(0xFFFF, 0x0000, "int"),
             sg(0x0000, 0xFFFF, "short"), sg(0x8081, 0x4242, "group", 7, 2), sg(0x0F0F, 0x8F01, "group", 0, 1),
             sg(0x0F0F, 0x00F0, "broadcast", others=2), sg(0xA5A5, 0xA5A5, "broadcast", others=0),
-            sg(0x1234, 0x4321, "unaddressed", others=1), sg(m(2), m(3), "short"), sg(m(4), m(5), "int"),
+            sg(0x1234, 0x4321, "unaddressed", others=1), sg(m(2), m(3), "shortsub"), sg(m(4), m(5), "intenum"),
             {"kind": "stream", "stream": [255, 1, 6, 254]}, {"kind": "stream", "stream": [255, 0, 6, 8, 253, 254]},
             {"kind": "stream", "stream": [255, 1, 6, 6]}, {"kind": "stream", "stream": [255, 7, "err"]},
             {"kind": "stream", "stream": ["none"]},
@@ -781,7 +856,8 @@ def palette(seed, extra):
         r = m(10 + 3 * k)
         if k % 3 == 0:
             n = 2 + r % 5
-            jobs.append(ty(sorted(set((r >> (2 * j)) % 254 for j in range(n))), bool(k & 1), short=17 if k % 2 else r % 64))
+            jobs.append(ty(sorted(set((r >> (2 * j)) % 254 for j in range(n))), ["intsub", True, False, "shortsub", "intenum"][(k // 3) % 5],
+                           short=17 if k % 2 else r % 64))
         elif k % 3 == 1:
             jobs.append(qg(r, short=17 if k % 2 else (r >> 4) % 64))
         else:
@@ -862,15 +938,17 @@ def inter_st():
     @st.composite
     def job(draw, short):
         kind = draw(st.sampled_from(["types", "types", "qgroups", "setgroups", "setgroups", "setgroups", "stream", "gstream", "sgfault"]))
+        single = st.sampled_from(["short", "int"] + [k for k in SINGLE_KINDS if k != "bool" or short < 2])
         if kind == "types":
             return {"kind": "types", "types": sorted(draw(st.lists(st.one_of(st.integers(0, 253), st.sampled_from([0, 1, 6, 8])),
                                                                 max_size=6, unique=True))),
-                    "short": short, "as_int": draw(st.booleans())}
+                    "short": short, "dest": draw(single)}
         if kind == "qgroups":
-            return {"kind": "qgroups", "mask": draw(st.integers(0, 0xFFFF)), "short": short, "as_int": draw(st.booleans())}
+            return {"kind": "qgroups", "mask": draw(st.integers(0, 0xFFFF)), "short": short, "dest": draw(single)}
         if kind == "setgroups":
-            cur, req, d, g = draw(st.integers(0, 0xFFFF)), draw(st.integers(0, 0xFFFF)), draw(st.sampled_from(DEST_KINDS)), draw(st.integers(0, 15))
-            if d == "group":
+            cur, req, g = draw(st.integers(0, 0xFFFF)), draw(st.integers(0, 0xFFFF)), draw(st.integers(0, 15))
+            d = draw(st.sampled_from(DEST_KINDS + [k for k in ALL_KINDS if k != "bool" or short < 2]))
+            if BASE[d] == "group":
                 cur |= 1 << g
             return {"kind": "setgroups", "cur": cur, "req": req, "dest": d, "g": g, "others": draw(st.integers(0, 2)), "short": short}
         if kind == "stream":
@@ -881,7 +959,7 @@ def inter_st():
         bad = draw(st.sampled_from(["none", "err", "err255"]))
         other = draw(st.sampled_from(vals))
         return {"kind": "sgfault", "stream": [bad, other] if draw(st.booleans()) else [other, bad], "short": short,
-                "as_int": draw(st.booleans())}
+                "dest": draw(single)}
 
     @st.composite
     def gen(draw):
@@ -948,7 +1026,8 @@ def _shard(arg):
         res.label("qgroups", 1)
         res.sample({"kind": "qgroups", "mask": lo + 0x0101}, cls="query groups")
     elif kind == "setgroups":
-        _, lows, highs, dests = arg
+        _, lows, highs, dests = arg[:4]
+        more = {"short": arg[4]} if len(arg) > 4 else {}        # the unit's short address (default 17)
         for cl in lows:
             for ch in highs:
                 cur = cl | (ch << 8)
@@ -956,16 +1035,17 @@ def _shard(arg):
                     for rh in highs:
                         req = rl | (rh << 8)
                         for d in dests:
-                            if d == "group":
+                            if BASE[d] == "group":
                                 for g in sorted(bits_to_set(cur))[:2] + sorted(bits_to_set(cur))[-1:]:
-                                    run({"kind": "setgroups", "cur": cur, "req": req, "dest": d, "g": g}, nt=cur != req,
+                                    run(dict({"kind": "setgroups", "cur": cur, "req": req, "dest": d, "g": g}, **more), nt=cur != req,
                                         label="setgroups:" + d)
                             else:
-                                run({"kind": "setgroups", "cur": cur, "req": req, "dest": d}, nt=cur != req,
+                                run(dict({"kind": "setgroups", "cur": cur, "req": req, "dest": d}, **more), nt=cur != req,
                                     label="setgroups:" + d)
         res.sample({"kind": "setgroups", "cur": 0x1088, "req": 0x0006, "dest": "group", "g": 7}, cls="set groups")
     elif kind == "every-address":
-        # every short address 0..63, given as a Short object and as a plain int, for every sequence: the healthy clauses
+        # every short address 0..63, given as a Short object, as a plain int and as every look-alike of the two (IntEnum
+        # member, int subclass, Short subclass; bool for 0 and 1), for every sequence: the healthy clauses
         # (exact result, only the necessary changes, nothing else touched) and the fault clause (silent / garbled unit)
         _, seed, addrs = arg
         vals = ["none", "err", "err255", 0, 1, 0x80, 0xFF, 0x55]
@@ -976,22 +1056,23 @@ def _shard(arg):
         for a in addrs:
             pairs = [(0x0000, 0x0000), (0x0000, 0x0006), (0x1088, 0x0006), (0xFFFF, 0xFFFE), (0x00FF, 0xFF00), (m(a), m(a + 64)),
                      (m(a + 128), m(a + 128) ^ (1 << (a % 16)))]
-            for as_int in (False, True):
-                d = "int" if as_int else "short"
+            for d in SINGLE_KINDS:
+                if d == "bool" and a > 1:
+                    continue
                 for cur, req in pairs:
                     run({"kind": "setgroups", "cur": cur, "req": req, "dest": d, "short": a}, nt=cur != req,
                         label="every-address:setgroups:" + d)
                 for a0 in vals:
                     for a1 in vals:
                         if a0 in bad or a1 in bad:
-                            run({"kind": "sgfault", "stream": [a0, a1], "short": a, "as_int": as_int},
+                            run({"kind": "sgfault", "stream": [a0, a1], "short": a, "dest": d},
                                 label="every-address:setgroups-fault:" + d)
                 for mask in (0x0000, 0xFFFF, m(a + 7)):
-                    run({"kind": "qgroups", "mask": mask, "short": a, "as_int": as_int}, label="every-address:qgroups:" + d)
+                    run({"kind": "qgroups", "mask": mask, "short": a, "dest": d}, label="every-address:qgroups:" + d)
                 for types in ([], [a % 254], [0, 6, 8], [1, (a * 3) % 250 + 2, 253]):
-                    run({"kind": "types", "types": types, "short": a, "as_int": as_int}, nt=len(types) > 1,
+                    run({"kind": "types", "types": types, "short": a, "dest": d}, nt=len(types) > 1,
                         label="every-address:types:" + d)
-        res.sample({"kind": "sgfault", "stream": ["none", 0], "short": addrs[-1], "as_int": True}, cls="fault at a given address")
+        res.sample({"kind": "sgfault", "stream": ["none", 0], "short": addrs[-1], "dest": "intenum"}, cls="fault at a given address")
     elif kind == "streams":
         _, first_items, maxlen = arg
         for a0 in first_items:
@@ -1016,20 +1097,24 @@ def _shard(arg):
             st.tuples(st.integers(0, (1 << 254) - 1), st.one_of(st.integers(0, 254), st.sampled_from([15, 16, 17, 18, 32, 33, 100, 253, 254])))
             .map(lambda t: [b for b in range(254) if (t[0] >> b) & 1][:t[1]]),
             st.tuples(st.integers(0, 254), st.sampled_from(["first", "last", "spread"])).map(lambda t: long_types(*t)))
-        hyp.search(st.tuples(types_st, st.integers(0, 63), st.booleans()),
-                   lambda t: case_types({"kind": "types", "types": t[0], "short": t[1], "as_int": t[2]}),
+        single = st.one_of(st.sampled_from(["short", "int"]), st.sampled_from(SINGLE_KINDS))
+
+        def tcase(t):
+            return {"kind": "types", "types": t[0], "short": t[1] & 1 if t[2] == "bool" else t[1], "dest": t[2]}
+        hyp.search(st.tuples(types_st, st.integers(0, 63), single),
+                   lambda t: case_types(tcase(t)),
                    res, n, seed, ID, nontrivial=lambda t: len(t[0]) > 1,
                    classify=lambda t: ["hyp-types:len%s" % (len(t[0]) if len(t[0]) <= 8 else "9-16" if len(t[0]) <= 16 else
                                                             "17-64" if len(t[0]) <= 64 else "65-254")],
-                   to_json=lambda t: {"kind": "types", "types": t[0], "short": t[1], "as_int": t[2]})
-        pair = st.tuples(st.integers(0, 0xFFFF), st.integers(0, 0xFFFF), st.sampled_from(DEST_KINDS), st.integers(0, 15),
+                   to_json=tcase)
+        pair = st.tuples(st.integers(0, 0xFFFF), st.integers(0, 0xFFFF), st.sampled_from(DEST_KINDS + ALL_KINDS), st.integers(0, 15),
                          st.one_of(st.integers(0, 63), st.sampled_from([0, 1, 62, 63])))
 
         def fix(t):
             cur, req, d, g, a = t
-            if d == "group":
+            if BASE[d] == "group":
                 cur |= 1 << g
-            return {"kind": "setgroups", "cur": cur, "req": req, "dest": d, "g": g, "short": a}
+            return {"kind": "setgroups", "cur": cur, "req": req, "dest": d, "g": g, "short": a & 1 if d == "bool" else a}
         hyp.search(pair, lambda t: case_setgroups(fix(t)), res, n, seed + 1, ID,
                    nontrivial=lambda t: t[0] != t[1], classify=lambda t: ["hyp-setgroups:" + t[2]], to_json=fix)
         longer = st.lists(st.sampled_from(ALPHABET + [2, 3, 100, 253]), min_size=1, max_size=12)
@@ -1062,6 +1147,11 @@ def run(ctx):
     for d in DEST_KINDS:
         for cl in pats:
             shards.append(("setgroups", [cl], pats, [d]))
+    # the same structured pairs for the look-alike destinations (quick tier: half of the low-byte patterns each, rotating)
+    for di, d in enumerate(LIKE_KINDS):
+        for ci, cl in enumerate(pats):
+            if not q or (ci + di + s) % 2 == 0:
+                shards.append(("setgroups", [cl], pats, [d], (ci + s) % 2 if d == "bool" else 17))
     # adversarial streams: length <= 6 thorough (299 592 streams), <= 5 quick
     maxlen = 5 if q else 6
     for a0 in ALPHABET:
